@@ -5,6 +5,7 @@ import (
 	"math"
 	"math/big"
 	"sort"
+	"strconv"
 	"strings"
 
 	"github.com/apache/yunikorn-core/pkg/common/resources"
@@ -568,6 +569,27 @@ func (r *c18Run) quantities(maxLen int) {
 			strs = append(strs, base+suf)
 		}
 	}
+	// boundary numbers per suffix: around MaxInt64/scale and MaxInt64/(scale*1000) (the milli conversion of vcores),
+	// and around 2^31, 2^32, 2^53 (the width limits an arithmetic short cut is likely to use)
+	scales := map[string]*big.Int{"": big.NewInt(1), "k": big.NewInt(1000), "M": big.NewInt(1000000), "G": big.NewInt(1000000000), "T": big.NewInt(1000000000000),
+		"P": big.NewInt(1000000000000000), "E": big.NewInt(1000000000000000000), "Ki": big.NewInt(1 << 10), "Mi": big.NewInt(1 << 20), "Gi": big.NewInt(1 << 30),
+		"Ti": big.NewInt(1 << 40), "Pi": big.NewInt(1 << 50), "Ei": big.NewInt(1 << 60)}
+	maxI := big.NewInt(math.MaxInt64)
+	for suf, sc := range scales {
+		for _, extra := range []int64{1, 1000} {
+			lim := new(big.Int).Div(maxI, new(big.Int).Mul(sc, big.NewInt(extra)))
+			for d := int64(-2); d <= 2; d++ {
+				n := new(big.Int).Add(lim, big.NewInt(d))
+				if n.Sign() >= 0 {
+					strs = append(strs, n.String()+suf)
+				}
+			}
+		}
+		for _, n := range []int64{1<<31 - 1, 1 << 31, 1<<31 + 1, 1<<32 - 1, 1 << 32, 1<<32 + 1, 1 << 53, 1<<53 + 1, 10000000, 20000000, 99999999} {
+			strs = append(strs, strconv.FormatInt(n, 10)+suf)
+		}
+	}
+	sort.Strings(strs)
 	for _, s := range strs {
 		for _, milli := range []bool{false, true} {
 			var q resources.Quantity
